@@ -11,7 +11,7 @@ STRATEGIES = ["build", "block", "bfs", "dfs", "scc", "attr_seeds"]
 
 class C01(Machine):
     ID = "C01"
-    FAMILY_WEIGHTS = {"sparse": 3, "dense": 3, "canal": 1, "modular": 2, "maa": 3, "cascade": 1}
+    FAMILY_WEIGHTS = {"sparse": 3, "dense": 3, "canal": 1, "modular": 2, "maa": 3, "cascade": 1, "maa_cascade": 4}
     NMAX = {"quick": 6, "thorough": 8}
 
     def gen_params(self, sc, rng):
@@ -133,7 +133,30 @@ class C01(Machine):
             if c == 0:
                 return [viol(self.ID, "attractor_not_represented", step, {"attractor": sorted(ref.attractors()[k])[:8]}, site)]
             if c > 1:
-                return [viol(self.ID, "attractor_represented_twice", step, {"attractor": sorted(ref.attractors()[k])[:8], "count": c}, site)]
+                detail = {"attractor": sorted(ref.attractors()[k])[:8], "count": c, "nodes": [world.space_of(i) for i, h in sorted(st["hits"].items()) if k in h]}
+                # mechanism tag: does a reporting node lack a successor it has in the full diagram?
+                try:
+                    from .. import dump as D
+                    from ..ops import World
+
+                    tw = World(world.net, None, None, None, budget=True)
+                    o = tw.apply({"op": "bfs", "node": None, "level": None, "size": None})
+                    if o["cls"] == "ok" and o["value"] is True:
+                        F = D.structure(tw)
+                        cur = D.structure(world)
+                        inc = []
+                        for i, h in sorted(st["hits"].items()):
+                            if k not in h:
+                                continue
+                            sp = D._cs(world.sd.node_data(i)["space"])
+                            if sp in F and {c_[0] for c_ in cur[sp][0][2]} != {c_[0] for c_ in F[sp][0][2]}:
+                                inc.append(world.space_of(i))
+                        detail["incomplete_successor_lists"] = inc
+                        if inc and site == "scc":
+                            detail["mechanism"] = "scc_attach_incomplete_successors"
+                except Exception:  # noqa: BLE001
+                    pass
+                return [viol(self.ID, "attractor_represented_twice", step, detail, site)]
         return []
 
     def classify(self, res, world, st):
